@@ -619,6 +619,10 @@ func ruleNilableFuncFields(ctx *Ctx, rule string) {
 					r.Exempt(rule, key, pos, why)
 					continue
 				}
+				if why, ok := exemptViaOwners(q, f, nilableFuncExempt, fmt.Sprintf("%s.%s", owner, fld.Name())); ok {
+					r.Exempt(rule, key, pos, why+" (moved into a new helper reached only from there)")
+					continue
+				}
 				guarded := false
 				bp := ssaq.AccessPath(base)
 				for _, c := range ssaq.FieldCmps(ssaq.Atoms(ssaq.Guards(b))) {
@@ -680,6 +684,11 @@ func ruleHandlerErrors(ctx *Ctx, rule string) {
 			}
 			n++
 			key := "receive | error of " + strings.TrimPrefix(name, "rpc.(*Conn).") + " is returned"
+			if sig := c.Call.StaticCallee().Signature; sig.Results().Len() == 0 {
+				// a handler that has no error result cannot fail (it reports what goes wrong itself)
+				r.Ok(rule, key, q.Pos(ssaq.InstrPos(c)), "the handler has no error result")
+				continue
+			}
 			returned, tested := false, false
 			for _, ref := range *c.Referrers() {
 				switch x := ref.(type) {
